@@ -79,6 +79,9 @@ def _constructor_rows_are_appended(ctx):
     for x in ast.walk(fn):
         if isinstance(x, ast.For) and norm(x.iter) == rows:
             loops[id(x.iter)] = x
+        elif isinstance(x, ast.For) and isinstance(x.iter, ast.BoolOp) and isinstance(x.iter.op, ast.Or) and len(x.iter.values) == 2 and norm(x.iter.values[0]) == rows \
+                and isinstance(x.iter.values[1], (ast.List, ast.Tuple)) and not x.iter.values[1].elts:
+            loops[id(x.iter.values[0])] = x          # `for row in rows or []`
     n = 0
     for x in ast.walk(fn):
         if isinstance(x, ast.Name) and x.id == rows and isinstance(x.ctx, ast.Load) and id(x) not in tests:
